@@ -158,6 +158,41 @@ func TestC35Chain(t *testing.T) {
 			}
 			mapChanged = true
 		}
+		defer func() {
+			if p := recover(); p != nil {
+				panic(p) // the case already failed
+			}
+			if !mapChanged {
+				return
+			}
+			{
+				// bring the other set of processors up to date with the chain's network map (as a
+				// non-member: only local state is refreshed), otherwise its next NewEpoch event in a
+				// stale "member" state would retry the refused placement update for 15 minutes
+				o := sides[1]
+				var hn irsetup.Handler
+				for _, x := range o.hs {
+					if x.Proc+"/"+x.Name == "netmap/NewEpoch" {
+						hn = x
+					}
+				}
+				oe, err := hn.Event(o.env, irsetup.Variation{Epoch: uint64(chainEpoch), Salt: 7})
+				if err != nil {
+					t.Fatalf("harness: %v", err)
+				}
+				o.env.F.State.Set(-1, false)
+				o.proxy.Reset()
+				hn.Call(oe)
+				if !o.env.WaitIdleTimeout(20 * time.Second) {
+					t.Fatalf("outsider key, state non-member: netmap/NewEpoch with a changed network map does not finish (stuck retrying the container placement update it must not attempt); RPCs: %s", neoproxy.Describe(o.proxy.Calls()))
+				}
+				o.env.Dropped()
+				if ws := o.proxy.Writes(); len(ws) > 0 {
+					t.Fatalf("outsider key, state non-member: netmap/NewEpoch sent writes: %s", describeWrites(ws))
+				}
+			}
+
+		}()
 		height, err := w.Admin.Height()
 		if err != nil {
 			t.Fatalf("harness: %v", err)
@@ -172,7 +207,9 @@ func TestC35Chain(t *testing.T) {
 		s.env.F.State.Set(idx, mode == "lookup-error")
 		s.env.F.Epoch.SetEpochCounter(uint64(rapid.IntRange(0, 2).Draw(t, "localEpoch")))
 
-		s.env.WaitIdle()
+		if !s.env.WaitIdleTimeout(30 * time.Second) {
+			t.Fatalf("%s: a handler of an earlier case is still running (stuck in a retry loop)", s.name)
+		}
 		s.env.Dropped()
 		s.proxy.Reset()
 		for {
